@@ -699,6 +699,19 @@ class Path:
         self.pc, self.result, self.exc, self.decisions = pc, result, exc, decisions
 
 
+def sym_extreme(values, kind="max"):
+    """max / min of symbolic scalars without forking: a fresh variable m with m >= v_i (<=) for all i and m == v_j for some j."""
+    e = Engine.cur
+    vals = [v if isinstance(v, Sym) else K(v) for v in values]
+    if e is None or len(vals) == 1:
+        return vals[0]
+    m = Sym(dag.var(fresh_name(kind), "R"))
+    op = "ge" if kind == "max" else "le"
+    ax = f_and(*[cmp(op, m.n, v.n) for v in vals], f_or(*[cmp("eq", m.n, v.n) for v in vals]))
+    e.def_axioms.append(ax)
+    return m
+
+
 # ----------------------------------------------------------------------------- constructors
 def real(name):
     return Sym(dag.var(name, "R"))
